@@ -1423,3 +1423,163 @@ func ruleC23d(c *Ctx, r *Report) {
 		r.undecided(rule, name, "return-maybe-true", c.Pos(fn.Pos()), "no possibly-true return")
 	}
 }
+
+func init() {
+	register("C19", "", ruleC19close)
+	register("C18", "", ruleC18commit)
+}
+
+// ruleC19close: "when the session ends it holds no connections": Session.Close reaches rollback() and handleKsQuit()
+// on every path past the already-closed test; in Session.Run every command's response goes through writeResponse
+// (whose deferred closure hands the streaming connection to recycleContinueConn) before the next read or the exit.
+func ruleC19close(c *Ctx, r *Report) {
+	const rule = "MP-C19end"
+	r.floor(rule, 3)
+	cl := c.Method(serverRel, "Session", "Close")
+	isClosed := c.Method(serverRel, "Session", "IsClosed")
+	rollback := c.seMethod("rollback")
+	run := c.Method(serverRel, "Session", "Run")
+	execCmd := c.Method(serverRel, "Session", "execCommand")
+	writeResp := c.Method(serverRel, "Session", "writeResponse")
+	recCont := c.seMethod("recycleContinueConn")
+	if cl == nil || isClosed == nil || rollback == nil || run == nil || execCmd == nil || writeResp == nil || recCont == nil {
+		r.undecided(rule, "proxy/server.Session", "anchor", "-", "anchors not found")
+		return
+	}
+	n := 0
+	for _, ci := range callsIn(cl, func(cc *ssa.CallCommon) bool { return callsFunc(cc, isClosed) }) {
+		for _, e := range condEdges(ci.(*ssa.Call)) {
+			if e.Val {
+				continue
+			}
+			n++
+			exits := searchExits(cl, nil, e.If.Block().Succs[e.Succ], SearchOpts{Stop: func(in ssa.Instruction) bool {
+				cc := callCommon(in)
+				return cc != nil && callsFunc(cc, rollback)
+			}})
+			if len(exits) == 0 {
+				r.ok(rule, c.FuncName(cl), "not-yet-closed->rollback", c.Pos(ci.Pos()), "closing a session always rolls back and releases its transaction connections")
+			} else {
+				r.viol(rule, c.FuncName(cl), "not-yet-closed->rollback", c.Pos(ci.Pos()), "a session can be closed without rolling back and releasing its transaction connections", c.pathStrings(exits[0])...)
+			}
+		}
+	}
+	if n == 0 {
+		r.undecided(rule, c.FuncName(cl), "not-yet-closed->rollback", c.Pos(cl.Pos()), "Close does not test IsClosed()")
+	}
+	// Run: execCommand -> writeResponse
+	for _, ci := range callsIn(run, func(cc *ssa.CallCommon) bool { return callsFunc(cc, execCmd) }) {
+		exits := searchExits(run, ci, nil, SearchOpts{Stop: func(in ssa.Instruction) bool {
+			cc := callCommon(in)
+			return cc != nil && callsFunc(cc, writeResp)
+		}})
+		again := false
+		searchExits(run, ci, nil, SearchOpts{Stop: func(in ssa.Instruction) bool {
+			if in == ci {
+				again = true
+				return true
+			}
+			cc := callCommon(in)
+			return cc != nil && callsFunc(cc, writeResp)
+		}})
+		if len(exits) == 0 && !again {
+			r.ok(rule, c.FuncName(run), "execCommand->writeResponse", c.Pos(ci.Pos()), "every executed command's response passes writeResponse (which releases the streaming connection) before the loop continues or ends")
+		} else {
+			r.viol(rule, c.FuncName(run), "execCommand->writeResponse", c.Pos(ci.Pos()), "a command can complete without writeResponse: a connection parked in continueConn is never handed back")
+		}
+	}
+	// writeResponse: a deferred closure that calls recycleContinueConn is registered before anything else
+	okDefer := false
+	if len(writeResp.Blocks) > 0 {
+		for _, in := range writeResp.Blocks[0].Instrs {
+			d, ok := in.(*ssa.Defer)
+			if !ok {
+				if _, isCall := in.(*ssa.Call); isCall {
+					break
+				}
+				continue
+			}
+			if mc, ok := d.Call.Value.(*ssa.MakeClosure); ok {
+				if f, ok := mc.Fn.(*ssa.Function); ok && len(callsIn(f, func(cc *ssa.CallCommon) bool { return callsFunc(cc, recCont) })) > 0 {
+					okDefer = true
+				}
+			}
+			break
+		}
+	}
+	if okDefer {
+		r.ok(rule, c.FuncName(writeResp), "defer:recycleContinueConn", c.Pos(writeResp.Pos()), "registered first: runs on every exit of writeResponse")
+	} else {
+		r.viol(rule, c.FuncName(writeResp), "defer:recycleContinueConn", c.Pos(writeResp.Pos()), "writeResponse does not unconditionally release the streaming connection")
+	}
+}
+
+// ruleC18commit: COMMIT / ROLLBACK are sent to exactly the transaction's connections: in commit() every path through
+// the loop over txConns calls Commit() on the element before it is recycled; in rollback() every path calls Rollback()
+// unless the element is closed.
+func ruleC18commit(c *Ctx, r *Report) {
+	const rule = "PC2e"
+	r.floor(rule, 2)
+	pf := c.pcFacts()
+	if pf == nil {
+		r.undecided(rule, "proxy/server", "anchor", "-", "anchors not found")
+		return
+	}
+	for _, t := range []struct{ fn, method string }{{"commit", "Commit"}, {"rollback", "Rollback"}} {
+		fn := c.seMethod(t.fn)
+		m := c.pcMethod(t.method)
+		if fn == nil || m == nil {
+			r.undecided(rule, "(*proxy/server.SessionExecutor)."+t.fn, "anchor", "-", "not found")
+			continue
+		}
+		name := c.FuncName(fn)
+		found := false
+		for _, rl := range rangesOver(fn, pf.txF) {
+			if rl.elem == nil {
+				continue
+			}
+			found = true
+			a := aliasSet(rl.elem)
+			// edges on which the element is known closed carry no obligation (nothing can be sent on a closed connection)
+			prune := map[[2]int]bool{}
+			allInstrs(fn, func(in ssa.Instruction) {
+				call, ok := in.(*ssa.Call)
+				if !ok || !callsIfaceMethod(&call.Call, pf.isClosedM) || !a.has(recvOf(&call.Call)) {
+					return
+				}
+				for _, e := range condEdges(call) {
+					if e.Val {
+						prune[[2]int{e.If.Block().Index, e.Succ}] = true
+					}
+				}
+			})
+			okv := extractOf(rl.next, 0)
+			miss := false
+			var exits []Exit
+			for _, e := range condEdges(okv) {
+				if !e.Val {
+					continue
+				}
+				exits = append(exits, searchExits(fn, nil, e.If.Block().Succs[e.Succ], SearchOpts{
+					Stop: func(in ssa.Instruction) bool {
+						if in == ssa.Instruction(rl.next) {
+							miss = true
+							return true
+						}
+						cc := callCommon(in)
+						return cc != nil && callsIfaceMethod(cc, m) && a.has(recvOf(cc))
+					},
+					EdgeOK: func(b *ssa.BasicBlock, i int) bool { return !prune[[2]int{b.Index, i}] },
+				})...)
+			}
+			if !miss && len(exits) == 0 {
+				r.ok(rule, name, "loop:txConns->"+t.method, c.Pos(rl.rng.Pos()), "every open transaction connection receives "+t.method+"() before the loop moves on")
+			} else {
+				r.viol(rule, name, "loop:txConns->"+t.method, c.Pos(rl.rng.Pos()), "a transaction connection can be released without "+t.method+"() having been sent on it: the backend transaction is left open on a pooled connection")
+			}
+		}
+		if !found {
+			r.viol(rule, name, "loop:txConns->"+t.method, c.Pos(fn.Pos()), "no loop over the transaction's connections")
+		}
+	}
+}
